@@ -424,3 +424,13 @@ def clock_rows(O):
     # a header that names only inputs while the device has an output the header does not mention
     lay2 = C05.Layout("inputs only, one unnamed output", ["in", "in"], [0, 1], hidden_exp=1)
     C05.run_layout(O, lay2, 13, rep=dri.Rep(FACTS, B.protocol_battery(), B.protocol_judge))
+
+
+@obligation("C02/end-is-final", profiles=("dev",),
+            desc="the interpreter reports the end of the rows only when the top-level block is exhausted and then keeps "
+                 "reporting it (next_with_context: Ok(None) only from the dispatch state with no statement left, state "
+                 "unchanged) - so nothing is sent to the device after next() has returned None")
+def end_is_final(O):
+    from . import C01
+    from . import dri
+    C01.end_only_when_exhausted(O, dri.Rep(dict(FACTS), B.protocol_battery(), B.protocol_judge))
